@@ -22,14 +22,16 @@ open Proofs.RectGeo
 
 /-- `find_surface`'s formula returns the column surface that `block_centre` and `block_volume`
     were computed from, for a surface inside (or at the top of) any underground layer:
-    with `zc` the top block's centre elevation, `v` its volume and the layer thickness
-    `lt = top - bottom` (twice the block's own vertical distance),
+    with `zc` the top block's centre elevation, `v` its volume and `lt` any thickness not below
+    the block height (the code passes twice the block's own vertical distance, which *is* the
+    block height for a truncated block and the layer thickness for a complete one),
     `surfaceFormula zc (v / area) lt = surface`. -/
 theorem surface_recovery (g : Geo) (lay : Layer) (col : Column) (hwf : LayersWF g) (hl : lay ∈ g.layers)
-    (harea : 0 < col.area) (hb : lay.bottom < col.surface) (ht : col.surface ≤ lay.top) :
+    (harea : 0 < col.area) (hb : lay.bottom < col.surface) (ht : col.surface ≤ lay.top)
+    (lt : Rat) (hlt : col.surface - lay.bottom ≤ lt) :
     ∃ c v, blockCentre g lay col = some c ∧ blockVolume g lay col = some v ∧
-      surfaceFormula c.z (v / col.area) (lay.top - lay.bottom) = col.surface :=
-  surface_inside g lay col hwf hl harea hb ht
+      surfaceFormula c.z (v / col.area) lt = col.surface :=
+  surface_inside g lay col hwf hl harea hb ht lt hlt
 
 /-- ... and for a surface above the top layer (the block of the first underground layer is
     extended up to the surface, its centre stays at the layer centre — the second case of the
@@ -43,7 +45,7 @@ theorem surface_recovery_above_top (g : Geo) (lay : Layer) (col : Column) (hwf :
 
 -- the example geometry of C04: column `a` has its surface (-1/2) inside the top layer,
 -- column `b` has its surface (1) above it; both are recovered from centre and volume
-example : surfaceFormula (-3/4) (2 / 4) 1 = -1/2 ∧ surfaceFormula (-1/2) (12 / 6) 1 = 1 := by decide +kernel
+example : surfaceFormula (-3/4) (2 / 4) (1/2) = -1/2 ∧ surfaceFormula (-1/2) (12 / 6) 1 = 1 := by decide +kernel
 example : LayersWF Proofs.FromGeo.Ex.geo ∧ Proofs.FromGeo.Ex.l1 ∈ Proofs.FromGeo.Ex.geo.layers ∧
     0 < Proofs.FromGeo.Ex.colA.area := by decide +kernel
 
